@@ -19,6 +19,18 @@ CHECKS = {
         "replayed into the code; recorded calls validated by TLC",
         design="4/C15",
     ),
+    "C09": dict(
+        specs=["XorFileR.tla", "XorFile.tla", "XorFileG.tla", "XorFileTrace.tla", "XorFileIO.tla"],
+        text="TLC checks that XorEncodedFile's read algorithm (look-behind nonce, first-dword mixing, 4-byte chunk loop, cursor "
+        "restore) refines a read-only file over the plaintext for all plaintexts of the small model and every interleaving of "
+        "seek/read/tell; the complete state graph of the reference file machine is dumped by TLC and every transition is "
+        "replayed on the real object from every core state; random histories on larger stages and real samples are "
+        "recorded and accepted/rejected by the trace specification; detection scenarios are enumerated by the spec.",
+        note="Trusted: TLC, XorFileR (Dec/Enc/ReadResult), the harness PE builder and stage encoder (cross-checked against "
+        "XorFileR.Stage). Seeks before offset 0 and seek()'s return value are outside the property.",
+        technique="TLA+ refinement (algorithm vs file machine) by TLC; state-graph transition replay; trace validation by TLC",
+        design="4/C09",
+    ),
 }
 
 NOT_YET = "check not built yet in this round; planned in DESIGN.md section 4"
